@@ -17,6 +17,14 @@ def concrete(sr, i, k, c, op):
         return "layer rectangle differs (layer must cover the clip bounds in force at push)"
     if kind == "poplayer" and (c.get("formula", 0) > 0 or c.get("frame", 0) > 0):
         return "pop_layer did not composite the layer once with its opacity and blend mode through the current clip"
+    if kind == "poplayer" and k < len(sr.impl[i]) and k < len(sr.model[i]) and not sr.model[i][k].panic:
+        # the destination of a pop is the surface or the enclosing layer; both are observable after the op and the model is
+        # the statement (one composite of the whole layer): any pixel difference, or a panic, at this op is a failure
+        if sr.impl[i][k].panic:
+            return "pop_layer panicked instead of compositing the layer"
+        a, b = sr.impl[i][k].parse(), sr.model[i][k].parse()
+        if a["surface"] != b["surface"] or (a["layer"] or [None, None])[1] != (b["layer"] or [None, None])[1]:
+            return "pop_layer did not composite the layer once with its opacity and blend mode into the buffer below it"
     if kind == "layer":
         return "push_layer changed something observable other than opening an empty transparent layer"
     if c.get("frame", 0) > 0:
